@@ -4,6 +4,6 @@ P=$1; shift
 cd /repo && git diff --quiet || { echo "/repo not clean"; exit 2; }
 git -C /repo apply $P || exit 2
 for id in "$@"; do
-  (cd /verif && ./check $id 2>&1 | grep -E "VIOLATION|^  C[0-9]|rule instances|ERROR" | head -12)
+  (cd /verif && LRS_EVIDENCE_DIR=/tmp/ev-scratch ./check $id 2>&1 | grep -E "VIOLATION|^  C[0-9]|rule instances|ERROR" | head -12)
 done
 git -C /repo checkout -- .
